@@ -1,92 +1,99 @@
 -------------------------------- MODULE H1Conn --------------------------------
-(* One client connection of internal/martian/proxy_conn.go: handle() exchanges,   *)
-(* the framing chosen by writeResponse()/writeHeaderOnlyResponse()/Response.Write, *)
-(* the keep-alive decision, the trace hooks and the consecutive-error counter.     *)
-(* Bodies are abstract; what matters is how each message is delimited on the wire. *)
-EXTENDS Integers, Sequences, FiniteSets, TLC
+(* One client connection of internal/martian/proxy_conn.go (C01 bodies/keep-alive,  *)
+(* C02, C13): handle() exchanges, the framing chosen by writeResponse() /            *)
+(* writeHeaderOnlyResponse() / Response.Write, the keep-alive decision, the trace    *)
+(* hooks.  Bodies are abstract (a size class); what matters is how each message is   *)
+(* delimited on the wire and whether the connection survives.                        *)
+EXTENDS Integers, Sequences, FiniteSets, TLC, Json, Randomization
 
 CONSTANTS MaxEx,
-          BugTrailerCRLF,    \* proxy_conn.go:549-570 as written: no CRLF after the Trailer line
-          BugUncompressed    \* transport-decompressed CL+gzip reply written without any framing
+          SeqSample,         \* number of random exchange sequences to generate
+          BugTrailerCRLF,    \* writeHeaderOnlyResponse without CRLF after the Trailer line
+          BugUncompressed    \* transport-decompressed reply of unknown length written without any framing
 
-Methods == {"GET", "HEAD", "POST", "CONNECT"}
-Reqs == [m : Methods, ver : {10, 11}, copt : {"none", "close", "ka"}]
-\* what comes back for the request
-Ups  == [kind : {"resp"}, st : {200, 204, 304, 404}, fr : {"cl", "chunked", "eof"}, tr : BOOLEAN, uz : BOOLEAN]
-          \cup [kind : {"reject", "rterr", "connok", "connrej", "connerr"}, st : {0}, fr : {"cl"}, tr : {FALSE}, uz : {FALSE}]
-
-VARIABLES k, phase, req, up, wire, alive, closing, errN,
-          nRead, nWrote, inflight, statusSent, statusReported
-
-vars == <<k, phase, req, up, wire, alive, closing, errN, nRead, nWrote, inflight, statusSent, statusReported>>
-
-NoReq == [m |-> "GET", ver |-> 11, copt |-> "none"]
-NoUp  == [kind |-> "reject", st |-> 0, fr |-> "cl", tr |-> FALSE, uz |-> FALSE]
-
-Init == /\ k = 0 /\ phase = "idle" /\ req = NoReq /\ up = NoUp /\ wire = <<>>
-        /\ alive = TRUE /\ closing = FALSE /\ errN = 0
-        /\ nRead = 0 /\ nWrote = 0 /\ inflight = 0 /\ statusSent = <<>> /\ statusReported = <<>>
+Methods == {"GET", "HEAD", "POST", "PUT", "DELETE", "OPTIONS", "PURGE"}
+BodyMethods == {"POST", "PUT", "DELETE", "PURGE"}
+Reqs == { r \in [m : Methods, ver : {10, 11}, copt : {"none", "close", "ka"}, body : {"none", "cl", "chunked"},
+                 sz : 1..3, ae : {"absent", "gzip", "br"}] :
+            /\ (r.body # "none" => r.m \in BodyMethods)
+            /\ (r.m \in {"POST", "PUT"} => r.body # "none")
+            /\ (r.ver = 10 => r.body # "chunked")
+            /\ (r.body = "none" => r.sz = 1) }
+\* what the origin sends back
+Ups == { u \in [st : {200, 201, 204, 304, 404, 500, 503, 299}, fr : {"cl", "chunked", "eof"}, tr : BOOLEAN, gz : BOOLEAN,
+                sse : BOOLEAN, sz : 1..3, hop : BOOLEAN, cookies : BOOLEAN] :
+            /\ (u.tr => u.fr = "chunked")                       \* trailers need the chunked coding
+            /\ (u.sse => u.st = 200 /\ u.fr \in {"chunked", "eof"} /\ ~u.gz /\ ~u.tr)
+            /\ (u.gz => u.st \in {200, 404} /\ u.sz > 1)
+            /\ (u.st \in {204, 304} => u.sz = 1 /\ ~u.gz /\ ~u.sse /\ u.fr = "cl" /\ ~u.tr)
+            /\ (u.st \in {201, 500, 503, 299} => ~u.cookies /\ ~u.hop) }
 
 ReqClose(r) == r.copt = "close" \/ (r.ver = 10 /\ r.copt # "ka")       \* http.ReadRequest
-HeaderOnly(r, u) == r.m = "HEAD" \/ u.st \in {204, 304}                 \* flush.go:51 isHeaderOnlySpec
-Sensible(r, u) ==
-  /\ (r.m = "CONNECT") = (u.kind \in {"connok", "connrej", "connerr"} \/ u.kind = "reject")
-  /\ (u.kind = "resp" => /\ (u.tr => u.fr = "chunked")                   \* trailers need chunked coding
-                         /\ (u.uz => u.fr \in {"cl", "chunked"} /\ r.m # "HEAD" /\ u.st \notin {204, 304}))
+HeaderOnly(r, u) == r.m = "HEAD" \/ u.st \in {204, 304}                 \* flush.go isHeaderOnlySpec
+\* the transport solicits gzip itself (and then undoes it) iff the client sent no Accept-Encoding
+Solicited(r) == r.ae = "absent" /\ r.m # "HEAD"
+Undone(r, u) == u.gz /\ Solicited(r)
 
-Shutdown == /\ ~closing /\ closing' = TRUE
-            /\ UNCHANGED <<k, phase, req, up, wire, alive, errN, nRead, nWrote, inflight, statusSent, statusReported>>
+\* framing as the proxy must produce it: head terminated?, body framing, connection closes afterwards
+Wire(r, u, closing) ==
+  LET close == closing \/ ReqClose(r) IN
+  IF HeaderOnly(r, u) THEN
+       [head |-> IF u.tr /\ BugTrailerCRLF THEN "unterminated" ELSE "ok", fr |-> "none", close |-> close]
+  ELSE IF Undone(r, u) /\ u.fr # "chunked" THEN          \* length no longer known
+       IF BugUncompressed THEN [head |-> "ok", fr |-> "raw", close |-> close]
+       ELSE [head |-> "ok", fr |-> "selfdelim", close |-> close]   \* chunked, or raw + close: harness accepts both
+  ELSE IF u.fr = "cl"      THEN [head |-> "ok", fr |-> "cl", close |-> close]
+  ELSE IF u.fr = "chunked" THEN [head |-> "ok", fr |-> "chunked", close |-> close]
+  ELSE                          [head |-> "ok", fr |-> "raw", close |-> TRUE]           \* delimited by close
 
-\* readRequest + traceReadRequest (proxy_conn.go:315-316)
+(* ---------------- the connection as a state machine (model checking) ---------------- *)
+VARIABLES k, phase, req, wire, alive, closing, nRead, nWrote, inflight
+vars == <<k, phase, req, wire, alive, closing, nRead, nWrote, inflight>>
+
+NoReq == [m |-> "GET", ver |-> 11, copt |-> "none", body |-> "none", sz |-> 1, ae |-> "absent"]
+Init == /\ k = 0 /\ phase = "idle" /\ req = NoReq /\ wire = <<>> /\ alive = TRUE /\ closing = FALSE
+        /\ nRead = 0 /\ nWrote = 0 /\ inflight = 0
+
+Shutdown == /\ ~closing /\ closing' = TRUE /\ UNCHANGED <<k, phase, req, wire, alive, nRead, nWrote, inflight>>
+\* readRequest + traceReadRequest
 Read(r) == /\ phase = "idle" /\ alive /\ k < MaxEx
            /\ k' = k + 1 /\ req' = r /\ nRead' = nRead + 1 /\ inflight' = inflight + 1
-           /\ phase' = IF closing THEN "dropped" ELSE "handling"     \* :331
-           /\ UNCHANGED <<up, wire, alive, closing, errN, nWrote, statusSent, statusReported>>
+           /\ phase' = IF closing THEN "dropped" ELSE "handling"
+           /\ UNCHANGED <<wire, alive, closing, nWrote>>
 \* a request read while closing is dropped without a report (excluded from C13 by its statement)
 Drop == /\ phase = "dropped" /\ phase' = "idle" /\ alive' = FALSE /\ inflight' = inflight - 1
-        /\ UNCHANGED <<k, req, up, wire, closing, errN, nRead, nWrote, statusSent, statusReported>>
-
-Status(u) == CASE u.kind = "resp" -> u.st [] u.kind = "reject" -> 407 [] u.kind = "rterr" -> 502
-               [] u.kind = "connok" -> 200 [] u.kind = "connrej" -> 403 [] u.kind = "connerr" -> 502
-
-\* framing as the code produces it: <<head, body framing, connection closes afterwards>>
-Wire(r, u) ==
-  LET close == closing \/ ReqClose(r) IN
-  CASE u.kind = "connok" -> [head |-> "ok", fr |-> "tunnel", close |-> TRUE]        \* tunnel, then errClose
-    [] u.kind \in {"reject", "rterr", "connrej", "connerr"} ->
-                            [head |-> "ok", fr |-> "cl", close |-> close]           \* errorResponse sets ContentLength
-    [] HeaderOnly(r, u) ->  [head |-> IF u.tr /\ BugTrailerCRLF THEN "unterminated" ELSE "ok",
-                             fr |-> "none", close |-> close]
-    [] u.uz /\ u.fr = "cl" -> IF BugUncompressed THEN [head |-> "ok", fr |-> "raw", close |-> close]
-                              ELSE [head |-> "ok", fr |-> "chunked", close |-> close]
-    [] u.fr = "cl"      ->  [head |-> "ok", fr |-> "cl", close |-> close]
-    [] u.fr = "chunked" ->  [head |-> "ok", fr |-> "chunked", close |-> close]
-    [] u.fr = "eof"     ->  [head |-> "ok", fr |-> "raw", close |-> TRUE]           \* Response.Write sets Close
-
+        /\ UNCHANGED <<k, req, wire, closing, nRead, nWrote>>
 \* modify / roundTrip / writeResponse + traceWroteResponse, one exchange (write fault optional)
 Respond(u, wfault) ==
-  /\ phase = "handling" /\ Sensible(req, u)
-  /\ up' = u
-  /\ LET w == Wire(req, u) IN
-     /\ wire' = Append(wire, [k |-> k, m |-> req.m, st |-> Status(u), head |-> w.head, fr |-> w.fr, close |-> w.close \/ wfault])
+  /\ phase = "handling"
+  /\ LET w == Wire(req, u, closing) IN
+     /\ wire' = Append(wire, [k |-> k, head |-> w.head, fr |-> w.fr, close |-> w.close \/ wfault])
      /\ alive' = ~(w.close \/ wfault)
-     /\ errN' = IF u.kind \in {"resp", "connok"} THEN 0 ELSE errN      \* writeErrorResponse returns nil or errClose
-  /\ nWrote' = nWrote + 1 /\ inflight' = inflight - 1
-  /\ statusSent' = Append(statusSent, Status(u)) /\ statusReported' = Append(statusReported, Status(u))
-  /\ phase' = "idle"
+  /\ nWrote' = nWrote + 1 /\ inflight' = inflight - 1 /\ phase' = "idle"
   /\ UNCHANGED <<k, req, closing, nRead>>
-
-Next == Shutdown \/ Drop \/ (\E r \in Reqs : Read(r)) \/ (\E u \in Ups, wf \in BOOLEAN : Respond(u, wf))
+\* a smaller response alphabet keeps the exhaustive run small; the generator below uses all of Ups
+McUps == {u \in Ups : u.st \in {200, 204} /\ ~u.sse /\ ~u.hop /\ ~u.cookies /\ u.sz = (IF u.gz THEN 2 ELSE 1)}
+McReqs == {r \in Reqs : r.m \in {"GET", "HEAD", "POST"} /\ r.sz = 1 /\ r.ae # "br"}
+Next == Shutdown \/ Drop \/ (\E r \in McReqs : Read(r)) \/ (\E u \in McUps, wf \in BOOLEAN : Respond(u, wf))
 Spec == Init /\ [][Next]_vars
 
-(* ---------------- properties ---------------- *)
 \* C02: what a conforming client parser needs
 HeadTerminated        == \A i \in 1..Len(wire) : wire[i].head = "ok"
 SelfDelimitingOrClose == \A i \in 1..Len(wire) : wire[i].fr = "raw" => wire[i].close
-NoBodyForHeaderOnly   == \A i \in 1..Len(wire) : (wire[i].m = "HEAD" \/ wire[i].st \in {204, 304}) => wire[i].fr \in {"none", "cl"} \/ wire[i].st \notin {200, 204, 304, 404}
-KthAnswersKth         == \A i \in 1..Len(wire) : wire[i].k = i \/ closing
+KthAnswersKth         == \A i \in 1..Len(wire) : wire[i].k = i
 NothingAfterClose     == \A i \in 1..Len(wire) : wire[i].close => i = Len(wire)
-\* C13: exactly one completion report per request read, with the status that was sent
+\* C13: exactly one completion report per request read
 ExactlyOnce           == ~closing => (nRead = nWrote + inflight /\ inflight = (IF phase = "idle" THEN 0 ELSE 1))
-ReportedIsSent        == statusReported = statusSent
+
+(* ---------------- generator: sequences of exchanges with the expected wire ---------------- *)
+Exch == Reqs \X Ups
+GenSeqs == RandomSubset(SeqSample, [1..MaxEx -> Exch])
+\* an exchange happens only if every earlier one left the connection open
+Expected(s) == [i \in 1..Len(s) |-> Wire(s[i][1], s[i][2], FALSE)]
+GInit == /\ \E s \in GenSeqs :
+              wire = [i \in 1..Len(s) |-> [req |-> s[i][1], up |-> s[i][2], exp |-> Wire(s[i][1], s[i][2], FALSE),
+                                           undone |-> Undone(s[i][1], s[i][2]), headerOnly |-> HeaderOnly(s[i][1], s[i][2])]]
+         /\ k = 0 /\ phase = "gen" /\ req = NoReq /\ alive = TRUE /\ closing = FALSE /\ nRead = 0 /\ nWrote = 0 /\ inflight = 0
+GNext == FALSE /\ UNCHANGED vars
+Emit == PrintT(ToJson([seq |-> wire]))
 ==============================================================================
